@@ -74,19 +74,24 @@ func SimpleRings(pool []LigFragment) LigateResult {
 // IsClosedWalk reports whether the circular molecule spelled by construct can be tiled, on the given
 // strand, by fragments of the pool (as written or flipped) each joined to the next through a shared
 // overhang and the last to the first. maxNodes bounds the search (false, false on exhaustion).
-func IsClosedWalk(construct string, pool []LigFragment, maxNodes int) (ok bool, decided bool) {
+// With once set, every supplied fragment may be used at most once (a fragment supplied twice, twice).
+func IsClosedWalk(construct string, pool []LigFragment, maxNodes int, once bool) (ok bool, decided bool) {
 	u := strings.ToUpper(construct)
 	L := len(u)
 	if L == 0 {
 		return false, true
 	}
-	type unit struct{ fwd, seq, rev string }
-	var units []unit
-	for _, g := range pool {
-		units = append(units, unit{g.Fwd, g.Seq, g.Rev})
-		f := g.flipped()
-		units = append(units, unit{f.Fwd, f.Seq, f.Rev})
+	type unit struct {
+		fwd, seq, rev string
+		idx           int
 	}
+	var units []unit
+	for i, g := range pool {
+		units = append(units, unit{g.Fwd, g.Seq, g.Rev, i})
+		f := g.flipped()
+		units = append(units, unit{f.Fwd, f.Seq, f.Rev, i})
+	}
+	taken := make([]bool, len(pool))
 	dd := u + u + u
 	nodes := 0
 	// tile from offset o: at position pos (0-based within dd, starting at o) the pending overhang is ov
@@ -116,7 +121,13 @@ func IsClosedWalk(construct string, pool []LigFragment, maxNodes int) (ok bool, 
 			if dd[o+used+len(piece):o+used+len(piece)+len(un.rev)] != un.rev {
 				continue
 			}
-			if walk(o, used+len(piece), un.rev, first) {
+			if once && taken[un.idx] {
+				continue
+			}
+			taken[un.idx] = true
+			found := walk(o, used+len(piece), un.rev, first)
+			taken[un.idx] = false
+			if found {
 				return true
 			}
 		}
